@@ -27,7 +27,7 @@ BAD = ['A+B', '2*A*B', 'A-B', '(A', 'A*B*C', 'max(A,B)']
 
 def generate(seed, tier):
     S = core.Streams(seed)
-    if S['swarm'].random() < 0.012:
+    if S['swarm'].random() < 0.016:
         # model level: flows recorded on sectors by the framework itself and by Model.RegisterCashFlow (source and
         # destination income flags differ), observed on the solved INC series
         from .. import econgen
@@ -46,6 +46,19 @@ def generate(seed, tier):
                      {'op': 'AddCashFlow', 'sector': e['gov'], 'term': '+%s*LAG_F' % coef, 'eqn': None,
                       'is_income': S['swarm'].random() < 0.5}]
             ops = ops[0:at] + extra + ops[at:]
+        elif S['swarm'].random() < 0.5:
+            # a transfer a sector registers with itself, income on one side only (a reclassification): F is unchanged,
+            # INC gains or loses the amount
+            e = info['economies'][0]
+            main_i = [i for i, o in enumerate(ops) if o['op'] in ('main', 'SetAttr')][0]
+            sec = e[S['swarm'].choice(['hh', 'gov'])]
+            inc_src = S['swarm'].random() < 0.5
+            amt = [round(S['swarm'].uniform(0.5, 5.0), 2) for _ in range(8)]
+            extra = [{'op': 'AddVariable', 'sector': sec, 'name': 'RECLASS', 'eqn': '0.0'},
+                     {'op': 'SetExogenous', 'sector': sec, 'var': 'RECLASS', 'value': amt},
+                     {'op': 'RegisterCashFlow', 'model': info['model'], 'source': sec, 'target': sec, 'var': 'RECLASS',
+                      'inc_src': inc_src, 'inc_dst': not inc_src}]
+            ops = ops[0:main_i] + extra + ops[main_i:]
         return {'kind': 'ECON', 'family': info['family'], 'ops': ops}
     rng = S['ops']
     ops = [{'op': 'model', 'id': 'm0'}, {'op': 'country', 'id': 'c0', 'model': 'm0', 'code': 'CA'}]
